@@ -1479,8 +1479,13 @@ class GeoboxTiles:
     ) -> Dict[Tuple[int, int], List[Tuple[int, int]]]:
         deps: Dict[Tuple[int, int], List[Tuple[int, int]]] = {}
 
+        NY, NX = src.base.shape.yx
         for idx in self._all_tiles():
             bbox = self.pix_bbox(idx).transform(A).round()
+            if bbox.left >= NX or bbox.right <= 0 or bbox.bottom >= NY or bbox.top <= 0:
+                # entirely outside of src, tile lookup would clamp to the nearest tile
+                deps[idx] = []
+                continue
             src_idx = list(src.tiles(bbox))
             deps[idx] = src_idx
 
